@@ -39,7 +39,10 @@ EXPLANATION = (
     'computes exclusive-prefix-sum offsets and returns lengths from one '
     'definition, each worker writes only arr[pos:pos+len(xyz)], results are '
     'collected in submission order and the total is checked; (D4) the stored '
-    'atom type is the flat data\'s dtype and loaded dtypes are checked equal. '
+    'atom type is the flat data\'s dtype and loaded dtypes are checked equal; '
+    '(D6) ra.save takes the element type from the flat data and the values '
+    'from the row view (array[i]): every RaggedArray method that writes one '
+    'of the two re-derives the other on every normal path to its exit. '
     'Bit-identity of values, PyTables node order and scheduling are trusted/'
     'not decided.')
 
@@ -76,11 +79,14 @@ def _pure(v):
     return True
 
 
-def _temp(fi, name_node):
+def _temp(fi, name_node, need_pure=True):
     """FuncInfo.temp_value with the extended purity: the defining expression
     of a Name use that is a temporary (one reaching definition, pure value,
     object never mutated in place, operands unchanged between definition and
-    use), else None."""
+    use), else None.  With need_pure=False the value may contain calls the
+    analysis does not know (a read of the HDF5 file, say): the caller only
+    wants to know WHICH expression the name stands for, evaluated once at the
+    definition site."""
     if not isinstance(name_node, ast.Name) or not isinstance(name_node.ctx, ast.Load):
         return None
     if name_node not in fi.stmt_of:
@@ -97,7 +103,7 @@ def _temp(fi, name_node):
     if site in ('PARAM', 'UNBOUND') or not isinstance(site, (ast.Assign, ast.AnnAssign)):
         return None
     v = fi.def_value(site, name_node.id)
-    if v is None or isinstance(v, ast.GeneratorExp) or not _pure(v):
+    if v is None or isinstance(v, ast.GeneratorExp) or (need_pure and not _pure(v)):
         return None
     if fi._mutated_in_place(name_node.id):
         return None
@@ -404,6 +410,46 @@ def single_comp(e):
     return None
 
 
+def _subst_name(x, name, new):
+    """copy of x with every load of `name` replaced by a copy of `new`."""
+    class R(ast.NodeTransformer):
+        def visit_Name(self, node):
+            if node.id == name and isinstance(node.ctx, ast.Load):
+                return copy.deepcopy(new)
+            return node
+    return R().visit(copy.deepcopy(x))
+
+
+def fuse_comp(fi, sc, depth=3):
+    """Map fusion.  `[f(x) for x in xs if q(x)]` where `xs` is (a temporary
+    bound to) the list comprehension `[g(k) for k in ks if p(k)]` is
+    `[f(g(k)) for k in ks if p(k) if q(g(k))]`: returns the fused
+    (elt, target, iter, ifs); `sc` itself where nothing can be fused.  The
+    nodes of the result are copies that keep their source positions."""
+    while depth > 0 and sc is not None:
+        depth -= 1
+        elt, tgt, it, ifs = sc
+        if not isinstance(tgt, ast.Name):
+            return sc
+        inner = _temp(fi, it, need_pure=False) if isinstance(it, ast.Name) else it
+        isc = single_comp(inner) if isinstance(inner, ast.ListComp) else None
+        if isc is None:
+            return sc
+        e2, t2, it2, ifs2 = isc
+        outer = [elt] + list(ifs)
+        free = set()
+        for x in outer:
+            free |= names_loaded(x)
+            for c in ast.walk(x):
+                if isinstance(c, ast.comprehension) and tgt.id in target_names(c.target):
+                    return sc                  # the target is rebound inside: leave it
+        free.discard(tgt.id)
+        if set(target_names(t2)) & free:
+            return sc                          # the inner variable would capture an outer name
+        sc = (_subst_name(elt, tgt.id, e2), t2, it2, list(ifs2) + [_subst_name(x, tgt.id, e2) for x in ifs])
+    return sc
+
+
 def node_key(fi, e):
     """The key expression (canonical text) of `<handle>.get_node('/', key)`."""
     t = X(fi, e, expand=False)
@@ -699,7 +745,7 @@ def d_load(ck, mod):
         for n in walk_local(fn):
             if not (isinstance(n, ast.If) and any(isinstance(x, ast.Raise) for x in n.body)):
                 continue
-            q = _quantified_mismatch(n.test)
+            q = _quantified_mismatch(n.test, fi)
             if q is None:
                 continue
             cmp_, tgt, it = q
@@ -828,16 +874,19 @@ def d_load(ck, mod):
             ck.ok('C15.D2.stride-data', mod, x, u(x.value), 'legacy paths apply the stride')
 
 
-def _quantified_mismatch(test):
+def _quantified_mismatch(test, fi=None):
     """`not all(a == b for t in it)` / `any(a != b for t in it)` (list or
     generator) -> (Cmp a != b, target, iter): the test is true iff some
-    element violates the equality."""
+    element violates the equality.  With `fi` a sequence that was itself
+    gathered by a comprehension is fused into the quantifier (fuse_comp)."""
     pol = True
     while isinstance(test, ast.UnaryOp) and isinstance(test.op, ast.Not):
         test, pol = test.operand, not pol
     if not (isinstance(test, ast.Call) and isinstance(test.func, ast.Name) and test.func.id in ('all', 'any') and len(test.args) == 1):
         return None
     sc = single_comp(test.args[0])
+    if sc is not None and fi is not None:
+        sc = fuse_comp(fi, sc)
     if sc is None or sc[3]:
         return None
     elt, tgt, it, _ = sc
@@ -908,6 +957,51 @@ def _view_of(fi, e, shape_name=None):
     if b is None:
         return None
     return u(b['_SA']), u(b['_SH'])
+
+
+def _sounding_jobs(fi, call, sounder, snd_fn):
+    """The (trajectory, stride) pairs a pool call sounds, as ONE canonical
+    list comprehension `[(<file>, <stride>) for ... in ... if ...]`:
+      pool.starmap(sound_trajectory, [(f, s) for ...])            as written;
+      pool.map(sound_trajectory, [f for ...])                      stride = the default of sound_trajectory;
+      pool.map(partial(sound_trajectory, stride=S), [f for ...])   stride = S, evaluated once outside the comprehension.
+    None when the call has another shape (starred arguments, a partial that
+    binds the trajectory, an unordered / lazy map, a name of the comprehension
+    that would capture a name of S)."""
+    if len(call.args) != 2 or call.keywords:
+        return None
+    kind = call.func.attr
+    seq = X(fi, call.args[1])
+    sc = single_comp(seq)
+    if sc is None or not isinstance(seq, ast.ListComp):
+        return None
+    sps = params(snd_fn)
+    if len(sps) < 2:
+        return None
+    if isinstance(sounder, ast.Name):
+        if kind == 'starmap':
+            return seq
+        bound = {}
+    else:
+        if len(sounder.args) != 1 or any(k.arg is None for k in sounder.keywords):
+            return None
+        bound = {k.arg: k.value for k in sounder.keywords}
+    if kind != 'map' or set(bound) - {sps[1]}:
+        return None
+    if sps[1] in bound:
+        S = X(fi, bound[sps[1]])
+        if names_loaded(S) & set(target_names(sc[1])):
+            return None
+    else:
+        from ..core import param_default
+        S = param_default(snd_fn, sps[1])
+        if S is None or not isinstance(S, ast.Constant):
+            return None
+        S = copy.deepcopy(S)
+    out = copy.deepcopy(seq)
+    out.elt = ast.Tuple(elts=[out.elt, S], ctx=ast.Load())
+    ast.fix_missing_locations(out)
+    return canon(out)
 
 
 def d_concat(ck, mod):
@@ -1100,29 +1194,56 @@ def d_concat(ck, mod):
         why = ('lengths.insert(i, 1) must use the index of the file in `args` (enumerate(args) with the frame test inside the '
                'loop): enumerating only the frame entries gives positions in the filtered list, so the 1s land at the front and '
                'every offset after them is wrong')
-        v = classify(X(fi, loop.iter), ['enumerate(%s)' % ARGS, 'enumerate(%s, 0)' % ARGS, 'enumerate(%s, start=0)' % ARGS], scope={ARGS})
+        it_t = X(fi, loop.iter)
+        v = classify(it_t, ['enumerate(%s)' % ARGS, 'enumerate(%s, 0)' % ARGS, 'enumerate(%s, start=0)' % ARGS,
+                            'range(len(%s))' % ARGS, 'range(0, len(%s))' % ARGS, 'range(0, len(%s), 1)' % ARGS], scope={ARGS})
         if v[0] != 'match':
             ck.decide(v, rule + '.frame-insert', mod, c2, F, txt, '', why)
             continue
-        if not (isinstance(loop.target, ast.Tuple) and len(loop.target.elts) == 2 and all(isinstance(e, ast.Name) for e in loop.target.elts)):
-            ck.missing(rule + '.frame-insert', 'loop target (i, kw) of %s' % txt)
-            continue
-        I, KW = (e.id for e in loop.target.elts)
+        if isinstance(it_t, ast.Call) and call_name(it_t) == 'enumerate':
+            if not (isinstance(loop.target, ast.Tuple) and len(loop.target.elts) == 2 and all(isinstance(e, ast.Name) for e in loop.target.elts)):
+                ck.missing(rule + '.frame-insert', 'loop target (i, kw) of %s' % txt)
+                continue
+            I, KW = (e.id for e in loop.target.elts)
+            elems = {KW, C('%s[%s]' % (ARGS, I))}
+        else:                                  # index loop: the file's kwargs are args[i]
+            if not isinstance(loop.target, ast.Name):
+                ck.missing(rule + '.frame-insert', 'loop target i of %s' % txt)
+                continue
+            I = loop.target.id
+            elems = {C('%s[%s]' % (ARGS, I))}
         ok = T(fi, c2.args[0]) == I and const_value(c2.args[1]) == 1 and const_value(c2.args[1]) is not True
-        ok = ok and guarded_by(guards_of(fi, fi.stmt(c2), within=loop), lambda q: q.op is ast.In and const_value(q.lhs) == 'frame' and T(fi, q.rhs) == KW)
+        ok = ok and guarded_by(guards_of(fi, fi.stmt(c2), within=loop), lambda q: q.op is ast.In and const_value(q.lhs) == 'frame' and T(fi, q.rhs) in elems)
         ck.check(ok, rule + '.frame-insert', mod, c2, F, txt, 'the length 1 of a single-frame file is inserted at that file\'s index in the file list', why)
     # --- sounding uses each file's own stride
-    sm = [c2 for c2 in calls_in(fn) if isinstance(c2.func, ast.Attribute) and c2.func.attr in ('starmap', 'map', 'imap') and c2.args and
-          isinstance(resolve(fi, c2.args[0]), ast.Name) and resolve(fi, c2.args[0]).id == 'sound_trajectory']
-    if len(sm) != 1 or sm[0].func.attr != 'starmap' or len(sm[0].args) != 2:
+    SND = 'sound_trajectory'
+
+    def sounder_of(c2):
+        """the function mapped by a pool call, when it is sound_trajectory or a partial of it"""
+        if not c2.args:
+            return None
+        f = resolve(fi, c2.args[0])
+        if isinstance(f, ast.Name) and f.id == SND:
+            return f
+        if isinstance(f, ast.Call) and tail(f) == 'partial' and f.args and isinstance(f.args[0], ast.Name) and f.args[0].id == SND:
+            return f
+        return None
+    sm = [c2 for c2 in calls_in(fn) if isinstance(c2.func, ast.Attribute) and c2.func.attr in MAPS and sounder_of(c2) is not None]
+    jobs = _sounding_jobs(fi, sm[0], sounder_of(sm[0]), ck.repo.mod(LO).func(SND)) if len(sm) == 1 else None
+    if jobs is None:
         ck.missing('C15.D2.stride-lengths', 'pool.starmap(sound_trajectory, ...) in load_as_concatenated')
     else:
-        t = X(fi, sm[0].args[1])
-        forms = ["[(_F, _K.get('stride', 1)) for _F, _K in zip(%s, %s) if 'frame' not in _K]" % (FN, ARGS),
-                 "[(_F, _K.get('stride', 1)) for (_F, _K) in zip(%s, %s) if not 'frame' in _K]" % (FN, ARGS)]
+        t = jobs
+        strides = ["_K.get('stride', 1)", "_K['stride'] if 'stride' in _K else 1", "1 if 'stride' not in _K else _K['stride']"]
+        forms = []
+        for st_ in strides:
+            forms += ["[(_F, %s) for _F, _K in zip(%s, %s) if 'frame' not in _K]" % (st_, FN, ARGS),
+                      "[(_F, %s) for (_F, _K) in zip(%s, %s) if not 'frame' in _K]" % (st_, FN, ARGS)]
         v = classify(t, forms, scope={FN, ARGS})
         ck.decide(v, 'C15.D2.stride-lengths', mod, sm[0], F, u(t)[:200], 'lengths sounded with each file\'s own stride, in file order, single-frame files left out',
-                  'sounding must pass each file\'s own stride (kw.get(\'stride\', 1)) for the files of zip(filenames, args) without a `frame` argument')
+                  'sounding must pass each file\'s own stride (kw.get(\'stride\', 1)) for the files of zip(filenames, args) without a `frame` argument: '
+                  'the workers load file i with args[i], so a length sounded with another stride (one shared stride, the default 1) gives wrong '
+                  'lengths and write offsets whenever the per-file strides differ')
         s0 = fi.stmt(sm[0])
         ok = isinstance(s0, ast.Assign) and len(s0.targets) == 1 and isinstance(s0.targets[0], ast.Name) and s0.targets[0].id == L and s0.value is sm[0]
         ck.check(ok, 'C15.D2.stride-lengths', mod, s0, F, u(s0)[:120], 'the sounded lengths become `lengths`', 'the result of the sounding must be bound to `lengths` unchanged')
@@ -1278,6 +1399,228 @@ def d_striped(ck):
     check_empty_allocs(ck, 'C15.D3.npy-fill', mod, [('load_npy_as_striped', fn)])
 
 
+# ---------------------------------------------------------------------------
+# D6: what ra.save writes is what the array holds
+
+_INPLACE_METHODS = {'fill', 'sort', 'put', 'itemset', 'resize', 'partition', 'setfield', 'byteswap', 'append', 'extend',
+                    'insert', 'pop', 'remove', 'reverse', 'clear'}
+_INPLACE_NP = {'np.put', 'np.copyto', 'np.place', 'np.putmask', 'np.fill_diagonal', 'np.put_along_axis',
+               'numpy.put', 'numpy.copyto', 'numpy.place', 'numpy.putmask'}
+
+
+def d_rows_current(ck, mod):
+    """ra.save takes the element type from the FLAT representation of a
+    RaggedArray (`array._data.dtype`) and the values row by row from
+    `array[i]`, which `RaggedArray.__getitem__` answers from the ROW view
+    (`self._array[i]`).  The row view of an array with equal row lengths is a
+    copy of the flat data, every other accessor reads the flat data: the
+    stored values are the array's values only if every method that writes one
+    representation re-derives the other one before it returns.  Decided per
+    write statement by reachability: no path write -> normal exit that avoids
+    every re-synchronising statement."""
+    from ..cfg import EXIT
+    rule = 'C15.D6.rows-current'
+    save = mod.func('save')
+    sps = params(save)
+    if len(sps) < 2:
+        ck.missing(rule, 'save(filename, array, ...) signature')
+        return
+    ARR = sps[1]
+    flats = {n.value.attr for n in ast.walk(save) if isinstance(n, ast.Attribute) and n.attr == 'dtype' and
+             isinstance(n.value, ast.Attribute) and isinstance(n.value.value, ast.Name) and n.value.value.id == ARR}
+    by_row = any(isinstance(n, ast.Subscript) and isinstance(n.value, ast.Name) and n.value.id == ARR and isinstance(n.ctx, ast.Load)
+                 for n in ast.walk(save)) or any(isinstance(n, ast.For) and ARR in names_loaded(n.iter) for n in ast.walk(save))
+    cls = mod.classes.get('RaggedArray')
+    if cls is None:
+        ck.missing(rule, 'class RaggedArray in %s' % mod.rel)
+        return
+    if not by_row or len(flats) != 1:
+        ck.missing(rule, 'ra.save reading the rows as array[i] and the element type as array.<flat data>.dtype (flat attributes found: %s)' % sorted(flats))
+        return
+    FLAT = next(iter(flats))
+    methods = [m for m in cls.body if isinstance(m, (ast.FunctionDef,)) and params(m) and
+               not any(isinstance(d, ast.Name) and d.id in ('staticmethod', 'classmethod') for d in m.decorator_list)]
+    gi = [m for m in methods if m.name == '__getitem__']
+    rows = set()
+    if len(gi) == 1 and len(params(gi[0])) >= 2:
+        S0, IDX = params(gi[0])[:2]
+        gfi = finfo(mod, gi[0])
+        for r in returns_of(gi[0]):
+            t = X(gfi, r.value) if r.value is not None else None
+            if isinstance(t, ast.Subscript) and isinstance(t.slice, ast.Name) and t.slice.id == IDX and isinstance(t.value, ast.Attribute) \
+                    and isinstance(t.value.value, ast.Name) and t.value.value.id == S0:
+                rows.add(t.value.attr)
+    if len(rows) != 1:
+        ck.missing(rule, 'the row view: `return self.<rows>[index]` in RaggedArray.__getitem__ (found %s)' % sorted(rows))
+        return
+    ROWS = next(iter(rows))
+    if ROWS == FLAT:
+        ck.ok(rule, mod, gi[0], 'rows and element type are read from one representation (%s)' % FLAT, 'nothing to keep in step')
+        return
+    n_writes = 0
+    for m in methods:
+        if m.name == '__init__':
+            continue
+        SELF = params(m)[0]
+        q = 'RaggedArray.' + m.name
+        fi = None
+        alias = {}
+        views = set()
+        for s in walk_local(m):
+            if isinstance(s, ast.Assign) and len(s.targets) == 1 and isinstance(s.targets[0], ast.Name):
+                v0 = s.value
+                sub = False
+                while isinstance(v0, ast.Subscript):
+                    v0, sub = v0.value, True
+                if isinstance(v0, ast.Attribute) and isinstance(v0.value, ast.Name) and v0.value.id == SELF and v0.attr in (FLAT, ROWS):
+                    alias[s.targets[0].id] = v0.attr
+                    if sub:
+                        views.add(s.targets[0].id)     # `t = self.<rep>[i]`: a view (or, for a fancy index, a copy)
+
+        def rep_of(e):
+            """the representation an expression denotes (self.<rep> or an alias of it)"""
+            if isinstance(e, ast.Attribute) and isinstance(e.value, ast.Name) and e.value.id == SELF and e.attr in (FLAT, ROWS):
+                return e.attr
+            if isinstance(e, ast.Name) and e.id in alias:
+                return alias[e.id]
+            return None
+
+        def base_rep(t):
+            while isinstance(t, ast.Subscript):
+                t = t.value
+            return rep_of(t)
+
+        def written(s):
+            """representation written (in place or rebound) by statement s, else None"""
+            tg = list(s.targets) if isinstance(s, ast.Assign) else [s.target] if isinstance(s, (ast.AugAssign, ast.AnnAssign)) else []
+            flat_t = []
+            for t in tg:
+                flat_t += list(t.elts) if isinstance(t, (ast.Tuple, ast.List)) else [t]
+            for t in flat_t:
+                if isinstance(t, ast.Subscript) and base_rep(t) is not None:
+                    return base_rep(t)
+                if isinstance(t, ast.Attribute) and rep_of(t) is not None:
+                    return rep_of(t)
+                if isinstance(s, ast.AugAssign) and isinstance(t, ast.Name) and rep_of(t) is not None:
+                    return rep_of(t)
+            if isinstance(s, ast.Expr) and isinstance(s.value, ast.Call):
+                c = s.value
+                if isinstance(c.func, ast.Attribute) and c.func.attr in _INPLACE_METHODS and base_rep(c.func.value) is not None:
+                    return base_rep(c.func.value)
+                if (call_name(c) or '') in _INPLACE_NP and c.args and base_rep(c.args[0]) is not None:
+                    return base_rep(c.args[0])
+            return None
+
+        def mentions(e, rep):
+            return any(rep_of(x) == rep for x in ast.walk(e))
+
+        def readers(st, e, rep, depth=6, seen=None):
+            """The statements that READ representation `rep` for the value of
+            expression `e` of statement `st`: `st` itself, or the definitions
+            in the backward slice of `e` (calls need not be known: this is
+            data dependence, not expansion)."""
+            seen = set() if seen is None else seen
+            out = [st] if mentions(e, rep) else []
+            if depth <= 0:
+                return out
+            for n in walk_expr(e):
+                if not (isinstance(n, ast.Name) and isinstance(n.ctx, ast.Load)) or n.id in alias or n not in fi.stmt_of:
+                    continue
+                try:
+                    defs = fi.defs_of_use(n)
+                except Exception:
+                    continue
+                for site in defs:
+                    if not isinstance(site, ast.AST) or (id(site), n.id) in seen:
+                        continue
+                    seen.add((id(site), n.id))
+                    v = fi.def_value(site, n.id)
+                    if v is not None:
+                        out += readers(site, v, rep, depth - 1, seen)
+            return out
+
+        def via_view(s):
+            tg = list(s.targets) if isinstance(s, ast.Assign) else [s.target] if isinstance(s, (ast.AugAssign, ast.AnnAssign)) else []
+            for t in tg:
+                while isinstance(t, ast.Subscript):
+                    t = t.value
+                if isinstance(t, ast.Name) and t.id in views:
+                    return True
+            return False
+
+        def self_calls(s):
+            if isinstance(s, (ast.FunctionDef, ast.AsyncFunctionDef, ast.ClassDef)):
+                return []
+            hs = header_nodes(s)
+            return [c for h in hs for c in ast.walk(h) if isinstance(c, ast.Call)]
+
+        stmts = [s for s in walk_local(m) if isinstance(s, ast.stmt)]
+        writes = [(s, written(s)) for s in stmts]
+        writes = [(s, r) for s, r in writes if r is not None]
+        if not writes:
+            continue
+        ck.analysed(mod, m)
+        fi = finfo(mod, m)
+        raises = [s for s in stmts if isinstance(s, ast.Raise)]
+        reinit, opaque = [], []
+        for s in stmts:
+            for c in self_calls(s):
+                f = c.func
+                if isinstance(f, ast.Attribute) and isinstance(f.value, ast.Name) and f.value.id == SELF:
+                    if f.attr == '__init__':
+                        reinit.append(s)
+                    elif f.attr not in (FLAT, ROWS):
+                        opaque.append(s)          # another method of the object may re-synchronise
+                elif any(isinstance(a, ast.Name) and a.id == SELF for a in list(c.args) + [k.value for k in c.keywords]):
+                    opaque.append(s)              # the object is handed to a helper
+        for s, rep in writes:
+            other = ROWS if rep == FLAT else FLAT
+            # the statement that writes `rep` may itself re-derive it from `other` (a sync, not a stale write)
+            if isinstance(s, ast.Assign) and len(s.targets) == 1 and rep_of(s.targets[0]) == rep and \
+                    readers(s, s.value, other) and not readers(s, s.value, rep):
+                continue
+            n_writes += 1
+            syncs = list(reinit)
+            for s2 in stmts:
+                if isinstance(s2, ast.Assign) and len(s2.targets) == 1 and rep_of(s2.targets[0]) == other:
+                    # a re-derivation counts when `rep` is read for it AFTER this write
+                    if any(d is s2 or fi.cfg.reachable(s, d) for d in readers(s2, s2.value, rep)):
+                        syncs.append(s2)
+            txt = u(s)[:120]
+            if not fi.cfg.reachable(s, EXIT, avoiding=syncs + raises):
+                ck.ok(rule, mod, s, txt, 'every normal exit after this write of self.%s re-derives self.%s' % (rep, other))
+                continue
+            if not fi.cfg.reachable(s, EXIT, avoiding=syncs + raises + opaque):
+                ck.missing(rule, 'whether %s re-synchronises self.%s after `%s` (%s:%s): a path to the exit only passes calls the rule does not follow'
+                           % (q, other, txt, mod.rel, getattr(s, 'lineno', '?')))
+                continue
+            if via_view(s):
+                ck.missing(rule, 'whether `%s` (%s:%s) writes self.%s: the target is a subscript of it (a view, or a copy for a fancy index)'
+                           % (txt, mod.rel, getattr(s, 'lineno', '?'), rep))
+                continue
+            path = fi.cfg.path(s, EXIT, avoiding=syncs + raises) or []
+            last = [x for x in path if isinstance(x, ast.stmt)]
+            where = 'exit at L%s' % getattr(last[-1], 'lineno', '?') if last else 'exit'
+            ck.bad(rule, mod, s, q, '%s ; %s' % (txt, where),
+                   'self.%s is written but self.%s is not re-derived from it before the method returns: ra.save stores the element type of '
+                   'self.%s and the values of self.%s[i] (RaggedArray.__getitem__), and the row view of an array with equal row lengths '
+                   'is a copy of the flat data - after this write save/load returns values the array no longer holds' % (rep, other, FLAT, ROWS))
+    ck.floor(rule, n_writes, 3, 'writes of the flat data / row view in RaggedArray methods')
+
+
+def header_nodes(s):
+    """The expression nodes evaluated by statement s itself (not by the
+    statements nested in it)."""
+    out = []
+    for f, v in ast.iter_fields(s):
+        if f in ('body', 'orelse', 'finalbody', 'handlers'):
+            continue
+        for x in (v if isinstance(v, list) else [v]):
+            if isinstance(x, ast.AST):
+                out.append(x)
+    return out
+
+
 def _part(ck, name, f, *a):
     """Run one group of obligations; an unexpected shape that trips the rule
     code itself is an unrecognised construct (incomplete), not a crash of the
@@ -1311,6 +1654,7 @@ def check(ck):
     mod = ck.repo.mod(RA)
     _part(ck, 'ra.save', d1_keys, mod)
     _part(ck, 'ra.load', d_load, mod)
+    _part(ck, 'RaggedArray row view vs flat data', d_rows_current, mod)
     lo = ck.repo.mod(LO)
     _part(ck, 'sound_trajectory', d_sound, lo)
     _part(ck, 'load_as_concatenated', d_concat, lo)
